@@ -52,6 +52,12 @@ def run(ctx):
                     out.append(x)
                 return out
             pkg.body = prune(pkg.body)
+            if pkg.media and rng.random() < 0.4:
+                # byte-identical images (a logo used twice) are still separate images
+                same = bytes(rng.randrange(256) for _ in range(9))
+                for name in pkg.media:
+                    if rng.random() < 0.7:
+                        pkg.media[name] = same
             d = os.path.join(wd.path, "c%d" % i)
             os.makedirs(d)
             name = rng.choice(["in.docx", "Üñï çødé.docx", "two.dots.docx"])
